@@ -400,6 +400,7 @@ theorem addAny_fuel (hrb : Ranked b) : ∀ (f g : Nat) (st : St) (r : Ref), AB a
     | gp => simp only; have := sec (by rw [hk]; decide) (by rw [hk]; decide) (by rw [hk]; decide); rw [hk] at this; exact this
     | tg => simp only; have := sec (by rw [hk]; decide) (by rw [hk]; decide) (by rw [hk]; decide); rw [hk] at this; exact this
     | user => simp only; have := sec (by rw [hk]; decide) (by rw [hk]; decide) (by rw [hk]; decide); rw [hk] at this; exact this
+    | certmap => simp only; have := sec (by rw [hk]; decide) (by rw [hk]; decide) (by rw [hk]; decide); rw [hk] at this; exact this
 
 theorem addAny_pair_fuel (hrb : Ranked b) (f g : Nat) (st : St) (rb : Ref) (F : St → St × String) (hF : ∀ s, (F s).1 = s)
     (hab : AB a b st) (hf : rk rb.1 < f) (hg : rk rb.1 < g) :
@@ -516,6 +517,7 @@ theorem diffAny_fuel (hra : Ranked a) (hrb : Ranked b) : ∀ (f g : Nat) (st : S
         | gp => simp only; have := sec (by rw [hk]; decide) (by rw [hk]; decide) (by rw [hk]; decide); rw [hk] at this; exact this
         | tg => simp only; have := sec (by rw [hk]; decide) (by rw [hk]; decide) (by rw [hk]; decide); rw [hk] at this; exact this
         | user => simp only; have := sec (by rw [hk]; decide) (by rw [hk]; decide) (by rw [hk]; decide); rw [hk] at this; exact this
+        | certmap => simp only; have := sec (by rw [hk]; decide) (by rw [hk]; decide) (by rw [hk]; decide); rw [hk] at this; exact this
 
 /-! ## the run with an explicit bound -/
 
